@@ -25,6 +25,7 @@ type zcAct struct {
 }
 
 type zcPath struct {
+	Spare []int   `json:"spare"` // stale content of the buffer a sink is created over
 	Buf   []int   `json:"buf"`
 	Steps []zcAct `json:"steps"`
 }
@@ -422,11 +423,35 @@ func TestVerifZCReplay(t *testing.T) {
 	for pi, p := range in.Paths {
 		src := NewZeroCopySource(zcBytes(p.Buf))
 		sink := NewZeroCopySink(nil)
+		if len(p.Spare) > 0 {
+			// a reused buffer: length 0, dirty spare capacity
+			dirty := zcBytes(p.Spare)
+			sink = NewZeroCopySink(dirty[:0])
+		}
 		leg := new(bytes.Buffer)
 		var items []zcAct
 		for si, a := range p.Steps {
 			var r zcRes
-			if a.Name == "Write" {
+			if a.Name == "SinkReset" || a.Name == "SinkBackUp" {
+				func() {
+					defer func() {
+						if e := recover(); e != nil {
+							r.Panic = fmt.Sprint(e)
+						}
+					}()
+					if a.Name == "SinkReset" {
+						sink.Reset()
+						leg.Reset()
+						items = nil
+					} else {
+						sink.BackUp(a.N)
+						leg.Truncate(leg.Len() - int(a.N))
+						items = items[:len(items)-1]
+					}
+				}()
+				r.Sink = zcInts(sink.Bytes())
+				r.Len = sink.Size()
+			} else if a.Name == "Write" {
 				size, legerr, pan := zcWrite(sink, leg, a.T, a.V)
 				items = append(items, a)
 				r = zcRes{Size: size, LegErr: legerr, Panic: pan, Sink: zcInts(sink.Bytes()), LegSink: zcInts(leg.Bytes())}
